@@ -23,9 +23,7 @@ theorem Edwards_neg_ok26 : (sig_Edwards_neg I26).ok B26 = true := by decide +ker
 theorem Edwards_sub_ok26 : (sig_Edwards_sub I26).ok B26 = true := by decide +kernel
 theorem Montgomery_ProjectivePoint_identity_ok26 : (sig_Montgomery_ProjectivePoint_identity I26).ok B26 = true := by decide +kernel
 theorem Montgomery_elligator_encode_ok26 : (sig_Montgomery_elligator_encode I26).ok B26 = true := by decide +kernel
-theorem Ristretto_elligator_ristretto_flavor_ok26 : (sig_Ristretto_elligator_ristretto_flavor I26).ok B26 = true := by decide +kernel
 theorem Ristretto_ct_eq_ok26 : (sig_Ristretto_ct_eq I26).ok B26 = true := by decide +kernel
 theorem Field_pow_p58_ok26 : (sig_Field_pow_p58 I26).ok B26 = true := by decide +kernel
-theorem Field_invsqrt_ok26 : (sig_Field_invsqrt I26).ok B26 = true := by decide +kernel
 
 end Dalek.Props.C11.Formulas
